@@ -10,6 +10,7 @@ python3 tools/gen_pool.py coq/gen/PoolProg.v > /dev/null
 python3 tools/gen_chan.py coq/gen/ChanProg.v > /dev/null
 python3 tools/gen_strun.py coq/gen/StRunProg.v > /dev/null
 python3 tools/gen_slot.py coq/gen/SlotProg.v > /dev/null
+python3 tools/gen_seqfut.py coq/gen/SeqFutProg.v > /dev/null
 ( cd coq && coq_makefile -f _CoqProject -o Makefile > /dev/null && timeout 3000 make -j16 > ../.build_coq.log 2>&1 ) || { mkdir -p .build; tail -30 .build_coq.log; echo "setup: Coq build failed"; exit 1; }
 mkdir -p .build && mv .build_coq.log .build/coq.log
 python3 - <<'PY'
